@@ -14,7 +14,7 @@
 (*                    tree used before the F1 repair is transcribed in     *)
 (*                    legacy/MatcherLegacy.tla; TLC refutes it.            *)
 (***************************************************************************)
-EXTENDS Common, TLC
+EXTENDS Common, MatcherRef, TLC
 
 CONSTANTS Hays, Needles     \* sets of byte strings
 
@@ -24,20 +24,7 @@ Ops    == FwdOps \cup BwdOps
 
 -----------------------------------------------------------------------------
 (* R *)
-Find(h, n)  == IF Occ(h, n) = {} THEN None ELSE Some(SetMin(Occ(h, n)))
-RFind(h, n) == IF Occ(h, n) = {} THEN None ELSE Some(SetMax(Occ(h, n)))
-
-\* result of op given the match offset o (an option)
-Derived(op, h, n, o) ==
-    CASE op \in {"find", "rfind"}          -> o
-      [] op \in {"contains", "rcontains"}  -> IsSome(o)
-      [] op = "find_skip"   -> IF IsNone(o) THEN None ELSE Some(From(h, o.some + Len(n)))
-      [] op = "find_keep"   -> IF IsNone(o) THEN None ELSE Some(From(h, o.some))
-      [] op = "rfind_skip"  -> IF IsNone(o) THEN None ELSE Some(UpTo(h, o.some))
-      [] op = "rfind_keep"  -> IF IsNone(o) THEN None ELSE Some(UpTo(h, o.some + Len(n)))
-      [] op \in {"split_once", "rsplit_once"} ->
-            IF IsNone(o) THEN None ELSE Some(<<UpTo(h, o.some), From(h, o.some + Len(n))>>)
-
+\* Find, RFind, Derived: see MatcherRef.tla
 \* The property quantifies the reverse *offset* over non-empty patterns only; the
 \* documented results for an empty needle are: rfind_skip/rfind_keep = Some(this),
 \* rsplit_once = (this, ""), rcontains = true.  `rfind(h, "")` is left unspecified
